@@ -106,12 +106,26 @@ func runC06(c *Ctx) {
 	post := "router.(*router).post"
 	c.Guard(r1, post, "router action posted", `^send:%r\.actionChan<-%action$`, 1, clause("router not stopping", F(`^%r\.stopping$`)))
 	c.Before(r1, post, "flag tested under the read lock", `^call:\(\*sync\.RWMutex\)\.RLock\(%r\.&stopLock\)$`, `^send:%r\.actionChan`)
-	c.Has(r1, post, "read lock held until the send completed", `^defer:\(\*sync\.RWMutex\)\.RUnlock\(%r\.&stopLock\)$`, 1)
+	// the read lock is held until the send completed: released by a deferred call, or explicitly — then never between
+	// taking it and the send
+	if fn := c.Fn(r1, post); fn != nil {
+		if len(matches(fn, `^defer:\(\*sync\.RWMutex\)\.RUnlock\(%r\.&stopLock\)$`)) > 0 {
+			c.R.OK(r1, post, "read lock held until the send completed (deferred unlock)", c.P.FuncPos(fn), "")
+		} else {
+			c.Reach(r1, post, "read lock held until the send completed", ReachSpec{From: `^call:\(\*sync\.RWMutex\)\.RUnlock\(%r\.&stopLock\)$`, Target: `^send:%r\.actionChan<-`, Want: false})
+		}
+	}
 	c.OnlyCalledFrom(r1, "router.post users", `^router\.\(\*router\)\.post$`, `^router\.\(\*router\)\.(AttachClient|AddRealm|RemoveRealm)$`, 3)
 	ga := rlm + "getAuthenticator"
 	c.Guard(r1, ga, "realm action posted during a handshake", `^send:%r\.actionChan<-`, 1, clause("realm not closed", F(`^%r\.closed$`)))
 	c.Before(r1, ga, "closed tested under the close lock", `^call:\(\*sync\.Mutex\)\.Lock\(%r\.&closeLock\)$`, `^send:%r\.actionChan`)
-	c.Has(r1, ga, "close lock held until the reply", `^defer:\(\*sync\.Mutex\)\.Unlock\(%r\.&closeLock\)$`, 1)
+	if fn := c.Fn(r1, ga); fn != nil {
+		if len(matches(fn, `^defer:\(\*sync\.Mutex\)\.Unlock\(%r\.&closeLock\)$`)) > 0 {
+			c.R.OK(r1, ga, "close lock held until the reply (deferred unlock)", c.P.FuncPos(fn), "")
+		} else {
+			c.Reach(r1, ga, "close lock held until the reply", ReachSpec{From: `^call:\(\*sync\.Mutex\)\.Unlock\(%r\.&closeLock\)$`, Target: `^send:%r\.actionChan<-|^val:<-`, Want: false})
+		}
+	}
 	hs := rlm + "handleSession"
 	join := `^call:router\.\(\*realm\)\.onJoin\(%r, %sess\)$`
 	c.Guard(r1, hs, "session joins", join, 1, clause("realm not closed", F(`^%r\.closed$`)))
